@@ -571,7 +571,7 @@ func add(o *osm.OSM, v interface{}) {
 // Top describes the document level.
 //
 // Version: 0 absent / "", 1 number 0.6, 2 string "0.6" (values: 1 and 2 both
-// mean "0.6"). Bounds: value direction OSM.Bounds set; documents: a top-level
+// mean "0.6"), 3 string "0.6.1-dev". Bounds: value direction OSM.Bounds set; documents: a top-level
 // "bounds" key as the OSM API writes it (not judged, the library does not
 // model it). Unknown, ElemPos, WS only matter for documents: unknown top-level
 // keys, the position of "elements" among the keys, compact or indented text.
@@ -622,6 +622,10 @@ func buildTop(t Top) (*osm.OSM, []kv) {
 	case 2:
 		o.Version = "0.6"
 		kvs = append(kvs, kv{"version", `"0.6"`})
+	case 3:
+		// a version string that is not a number literal
+		o.Version = "0.6.1-dev"
+		kvs = append(kvs, kv{"version", `"0.6.1-dev"`})
 	}
 	if t.Gen {
 		o.Generator = topGen.G
